@@ -31,7 +31,7 @@ for n, lens, tier, cap in (("ascii_1", "0..=1", Q, 600), ("ascii_2", "2", Q, 900
                            ("edifact_3", "1..=3", Q, 600), ("edifact_5", "4..=5", Q, 600), ("edifact_7", "6..=7", Q, 600),
                            ("b256_3", "1..=3", Q, 600), ("b256_5", "4..=5", Q, 600)):
     m = n.split("_")[0]
-    reg("acc_" + n, "dec", ["C04", "C05"], tier=tier, cap=cap,
+    reg("acc_" + n, "dec", ["C04", "C05"], tier=tier, cap=cap, qprops=["C04", "C05"] if n in ("ascii_1", "c40_2", "x12_3", "edifact_3", "b256_3") else ["C04"],
         bounds="one %s run of %s arbitrary codewords (all 256 values each), run to the end of the stream; crate decoder vs independent ISO/IEC 16022 decoder: accepted by the reference => accepted with the same bytes, end index and next mode; never panics; makes progress" % (m, lens),
         encodes=[DEC + _dec_fn[m], DEC + "Reader", DEC + "decode_c40_tuple"] + ([DEC + "read_eci"] if m == "ascii" else []))
 for n in ("c40", "text"):
@@ -51,6 +51,8 @@ reg("acc_pad_pos", "dec", ["C04", "C05"], tier=T, cap=1200,
     bounds="PAD + 0..=3 pads at a symbolic position 0..=1554, optionally one pad corrupted by a symbolic delta", encodes=[DEC + "decode_ascii", DEC + "derandomize_253_state"])
 reg("acc_ascii_eci", "dec", ["C04"], tier=T, cap=1200,
     bounds="ASCII char, ECI codeword, one-codeword designator, two ASCII chars, all symbolic", encodes=[DEC + "decode_ascii", DEC + "read_eci"])
+reg("parts_macro05", "dec", ["C16", "C04", "C01"], cap=1200, stubbing=True, bounds="decode_parts on [236, two arbitrary ASCII codewords 1..=128]: header + body + RS EOT; the five non-ASCII mode decoders stubbed out", encodes=[DEC + "decode_parts", DEC + "decode_ascii"])
+reg("parts_macro06_fnc1", "dec", ["C16", "C04", "C01"], cap=1800, stubbing=True, bounds="decode_parts on [237, 2 ASCII codewords], [232, 1 ASCII codeword], [236] alone; same stubs", encodes=[DEC + "decode_parts", DEC + "decode_ascii"])
 reg("oracle_c40_rt", "dec", ["C04"], cap=300, role="oracle-validation",
     bounds="reference C40/Text encoder -> reference decoder, 2 symbolic chars", encodes=[])
 reg("oracle_edifact_rt", "dec", ["C04"], cap=300, role="oracle-validation",
@@ -84,11 +86,13 @@ for n, tier, cap in (("ascii_2", Q, 600), ("ascii_3", Q, 900), ("c40_1", Q, 900)
                      ("edifact_2", Q, 900), ("edifact_4", Q, 1200), ("edifact_5", T, 1800), ("b256_2", Q, 900), ("b256_3", Q, 1200)):
     m, l = n.split("_")
     reg("conf_" + n, "enc", ["C02", "C11", "C01"], tier=tier, cap=cap, mem_gb=16 if tier == T else 8,
+        qprops=["C02", "C11", "C01"] if n in ("ascii_2", "x12_3", "edifact_2", "b256_2", "c40_1") else ["C02", "C11"] if n in ("edifact_4", "b256_3") else ["C02"],
         role="attempt" if n in ("c40_3", "text_3") else "lemma",
         bounds="real %s encoder over the array-backed context HEnc: %s arbitrary characters (%s), 1..=8 codewords already present, symbol list = any 1..3 ascending capacities from the real catalogue (<= 43), planned switch to ASCII at any character or none; stream finished as the dispatch loop does (rest in ASCII, UNLATCH, PAD, 253-state pads) and decoded by the independent ISO/IEC 16022 decoder: output == input, no assertion/overflow/index failure" % (m, l, "EDIFACT-encodable" if m == "edifact" else "X12-native in the full triples" if m == "x12" else "all 256 values"),
         encodes=_enc_fn[m] + ["encodation::ascii::encode", "encodation::ascii::encoding_size"])
 for n in ("249", "250", "251", "1555"):
-    reg("conf_b256_" + n, "enc", ["C02", "C01", "C11"], cap=1800, mem_gb=16, tier=T if n == "1555" else Q, role="attempt" if n == "1555" else "lemma",
+    reg("conf_b256_" + n, "enc", ["C02", "C01", "C11"], cap=1800, mem_gb=20 if n == "1555" else 8, tier=T if n == "1555" else Q, role="attempt" if n == "1555" else "lemma",
+        qprops=["C02", "C01"] if n == "250" else ["C02"],
         bounds="Base256 run of exactly %s bytes (one symbolic byte repeated) to the end of the data, explicit length: length field per ISO/IEC 16022 (1 codeword up to 249, 2 from 250), content de-randomises to the input, no panic" % n,
         encodes=["encodation::base256::encode", "base256::write_length", "base256::randomize_255_state"])
 reg("eci_rt", "enc", ["C15", "C02", "C11"], cap=600, bounds="every ECI number 0..=999999: form per ISO/IEC 16022 and read back by read_eci",
@@ -98,6 +102,7 @@ reg("mac_iff_12", "enc", ["C16", "C11", "C01"], cap=600, bounds="every 12-byte i
 reg("mac_iff_9_10", "enc", ["C16", "C11", "C01"], cap=600, bounds="every 9- and 10-byte input x FNC1 flag; cursor as above", encodes=MAC)
 reg("mac_iff_7_8", "enc", ["C16", "C11", "C01"], cap=600, bounds="every 7- and 8-byte input (bare header, header+1) x FNC1 flag", encodes=MAC)
 reg("mac_iff_short", "enc", ["C16", "C11"], cap=300, bounds="every input of length 0, 1, 2, 5 x FNC1 flag", encodes=MAC)
+reg("tot_empty_list", "enc", ["C11"], cap=900, bounds="real GenericDataEncoder::codewords with the EMPTY symbol list, every input of length 0, 1, 3, 7, FNC1 flag symbolic: SymbolListEmpty", encodes=["encodation::GenericDataEncoder::codewords (entry checks)", "SymbolList::is_empty", "SymbolList::max_capacity"])
 reg("pad_conf", "enc", ["C02", "C01"], cap=900, bounds="every symbol size with <= 64 data codewords (symbolic), 0..=3 free codewords, ASCII or non-ASCII mode at the end",
     encodes=["encodation::GenericDataEncoder::add_padding"])
 
@@ -107,7 +112,8 @@ _plan_fn = {"ascii": "planner::ascii::AsciiPlan", "c40": "planner::c40::C40LikeP
 for n, tier, cap in (("ascii_3", T, 2400), ("c40_2", Q, 1200), ("c40_3", T, 2400), ("text_2", Q, 1200), ("x12_3", Q, 900), ("x12_4", T, 1800), ("x12_5", T, 2400),
                      ("edifact_2", Q, 900), ("edifact_3", Q, 1200), ("edifact_4", T, 2400), ("edifact_5", T, 2400), ("b256_2", Q, 900)):
     m, l = n.split("_")
-    reg("cpl_" + n, "plan", ["C18", "C11"], tier=tier, cap=cap, mem_gb=16,
+    reg("cpl_" + n, "plan", ["C18", "C11"], tier=tier, cap=cap, mem_gb=8 if tier == Q else 16,
+        qprops=["C18", "C11"] if n in ("x12_3", "edifact_2") else ["C18"],
         bounds="%s: a run of %s arbitrary characters to the end of the data, 1..=10 codewords already written, any 1..3 ascending real capacities: plan stepped with step/cost/mode_switch_cost (no overflow, no assertion), and the real encoder never needs a larger symbol than ceil(cost) selects" % (m, l),
         encodes=[_plan_fn[m] + "::{step,cost,mode_switch_cost}", "planner::frac::Frac"] + _enc_fn[m])
 
@@ -137,15 +143,16 @@ reg("gf_mul", "gf", ["C06"], cap=300, bounds="all 65536 operand pairs: table mul
 reg("gf_div", "gf", ["C06", "C05"], cap=300, bounds="all dividends x all non-zero divisors", encodes=["galois::<GF as Div>::div"])
 reg("gf_log_pow", "gf", ["C06"], cap=300, bounds="all non-zero elements; all exponents 0..=254", encodes=["galois::GF::log", "galois::GF::primitive_power", "Add/Sub/Neg"])
 for n, ks in (("a", "5,7,10,11,12,14,15,18"), ("b", "20,22,24,27,28"), ("c", "32,34,36,38"), ("d", "41,42,46"), ("e", "48,50,56"), ("f", "62,68")):
-    reg("rs_gen_" + n, "ec", ["C06"], cap=1200, mem_gb=16, bounds="closed terms: generator polynomials of degree %s == prod_{i=1..k}(x + 2^i) in shift-xor arithmetic" % ks,
+    reg("rs_gen_" + n, "ec", ["C06"], cap=1200, mem_gb=8, bounds="closed terms: generator polynomials of degree %s == prod_{i=1..k}(x + 2^i) in shift-xor arithmetic" % ks,
         encodes=["errorcode::GENERATOR_POLYNOMIALS", "errorcode::generator"])
 reg("rs_gen_exists", "ec", ["C06", "C12"], cap=300, bounds="symbolic index over the 48 sizes: generator(k) exists, monic, count = blocks x k", encodes=["errorcode::generator", "SymbolSize::block_setup"])
 for n in ("5_11", "12_18", "20", "22", "24", "27", "28", "32", "34", "36", "38", "41", "42", "46", "48", "50", "56", "62", "68"):
-    reg("rs_step_" + n, "ec", ["C06"], cap=1200, mem_gb=16,
+    reg("rs_step_" + n, "ec", ["C06"], cap=1200, mem_gb=8,
         bounds="degree(s) %s: one LFSR step from an ARBITRARY register state (k symbolic bytes) with an arbitrary data byte == (old*x + a*x^k) mod g coefficient-wise in shift-xor arithmetic (one inductive step => any data length)" % n.replace("_", "..")
         , encodes=["errorcode::ecc_block", "errorcode::generator"])
 for n in ("sq52", "sq64", "sq72", "sq80", "sq88", "sq96", "sq104", "sq120", "sq132", "sq144", "sq10", "r16x48"):
-    reg("rs_glue_" + n, "ec", ["C06", "C01"], cap=1800, mem_gb=16, stubbing=True, tier=Q if n in ("sq52", "sq144", "sq10", "r16x48", "sq104") else T,
+    reg("rs_glue_" + n, "ec", ["C06", "C01"], cap=2400, mem_gb=8 if n in ("sq52", "sq10", "r16x48") else 20, stubbing=True, tier=Q if n in ("sq52", "sq10", "r16x48") else T,
+        qprops=["C06", "C01"] if n == "sq10" else ["C06"], role="attempt" if n in ("sq120", "sq132", "sq144") else "lemma",
         bounds="%s: EVERY data codeword symbolic; ecc_block replaced by a recording stub (count, first, last, rotating xor): block q receives exactly the codewords q, q+B, q+2B, ... and its result is written to positions q, q+B, ..." % n,
         encodes=["errorcode::encode_error"])
 reg("rs_il_sq10", "ec", ["C06", "C01"], cap=600, bounds="10x10: all data zero except the last codeword (symbolic): error codewords == a*x^k mod g at the interleaved positions", encodes=["errorcode::encode_error", "errorcode::ecc_block"])
@@ -174,10 +181,10 @@ reg("bp_2", "synd", ["C03"], profiles=["rel"], cap=3600, tier=T, role="attempt",
 GEN = ["syndrome_based::decode_gen", "decoding::primitive_element_evaluation", "decoding::chien_search", "syndrome_based::find_error_values_bp"] + LD
 TOY = "toy interleaved code (stride 2, 3 data codewords split 2+1 -> unequal blocks, k error codewords per block)"
 for n, tier in (("k2_b0", T), ("k2_b1", T), ("k3_b0", Q), ("k3_b1", Q)):
-    reg("cap_gen_" + n, "synd", ["C03"], profiles=["rel"], tier=tier, cap=2400, mem_gb=16,
+    reg("cap_gen_" + n, "synd", ["C03"], profiles=["rel"], tier=tier, cap=2400, mem_gb=8,
         bounds=TOY + " %s: zero codeword + 1 error (= floor(k/2)) at a symbolic position (data or EC part) with a symbolic value, symbolic garbage in the other block: Ok, block restored, other block untouched" % n, encodes=GEN)
 for n, tier in (("k3_z1_b0", Q), ("k3_z2_b1", Q), ("k2_z0_b0", T), ("k3_z0_b0", T), ("k3_z0_b1", T)):
-    reg("ok_w2_" + n, "synd", ["C09", "C05"], profiles=["rel"], tier=tier, cap=3600, mem_gb=16,
+    reg("ok_w2_" + n, "synd", ["C09", "C05"], profiles=["rel"], tier=tier, cap=3600, mem_gb=8, qprops=["C09"],
         bounds=TOY + " %s: zero codeword + 2 errors (one beyond capacity) at symbolic positions/values, garbage in the other block, z leading zero syndromes: Ok => codeword" % n, encodes=GEN)
 for n in ("k2_z0_b0", "k2_z1_b1", "k3_z0_b0", "k3_z0_b1", "k3_z1_b0", "k3_z2_b1"):
     reg("ok_gen_" + n, "synd", ["C09", "C05"], profiles=["rel"], tier=T, role="attempt", cap=3600, mem_gb=20,
@@ -185,7 +192,7 @@ for n in ("k2_z0_b0", "k2_z1_b1", "k3_z0_b0", "k3_z0_b1", "k3_z1_b0", "k3_z2_b1"
 for n in ("ok_contract_k2", "ok_contract_k3"):
     reg(n, "synd", ["C09", "C05"], profiles=["rel"], tier=T, role="attempt", cap=3600, mem_gb=20,
         bounds=TOY + ": every byte symbolic, locator search replaced by its contract", encodes=GEN[:4])
-reg("dec_glue", "synd", ["C03", "C09", "C05"], profiles=["rel"], cap=1800, mem_gb=16, stubbing=True,
+reg("dec_glue", "synd", ["C03", "C09", "C05"], profiles=["rel"], cap=1800, mem_gb=8, stubbing=True, qprops=["C03", "C05"],
     bounds="symbolic index over all 48 sizes: decode() calls decode_gen once per block with data[b..], error[b..], stride = blocks, err_len = k (decode_gen replaced by a recording stub)", encodes=["syndrome_based::decode"])
 reg("gen_identity", "synd", ["C01", "C03"], profiles=["rel"], tier=T, cap=2400, bounds=TOY + " k=3: arbitrary codeword of block 0: Ok, nothing written, locator search not called", encodes=GEN[:2])
 
@@ -194,14 +201,16 @@ PL = ["placement::IndexTraversal::run", "placement::IndexTraversal::utah", "plac
 _q_shapes = ("sq10", "sq12", "sq14", "sq16", "r8x18", "r8x32", "r12x26", "r8x48")
 for n in ("sq10", "sq12", "sq14", "sq16", "sq18", "sq20", "sq22", "sq24", "sq26", "sq32", "sq36", "sq40", "sq44", "r8x18", "r8x32", "r12x26", "r12x36", "r16x36", "r16x48",
           "r8x48", "r8x64", "r8x80", "r8x96", "r8x120", "r8x144", "r12x64", "r12x88", "r16x64", "r20x36", "r20x44", "r20x64", "r22x48", "r24x48", "r24x64", "r26x40", "r26x48", "r26x64"):
-    reg("pl_idx_" + n, "place", ["C07", "C01"], tier=Q if n in _q_shapes else T, cap=1800 if n in _q_shapes else 3600, mem_gb=16,
+    reg("pl_idx_" + n, "place", ["C07", "C01"], tier=Q if n in _q_shapes else T, cap=1800 if n in _q_shapes else 3600, mem_gb=8 if n in _q_shapes else 16,
+        qprops=["C07", "C01"] if n in ("sq10", "r8x18") else ["C07"],
         bounds="closed term, shape %s: the complete traversal vs Annex F (+ DMRE row wrap): every (codeword, bit) on the standard's module, bijection, untouched = fixed corner pattern" % n, encodes=PL)
 reg("pl_cell_any", "place", ["C07"], cap=2400, tier=T, bounds="symbolic even mapping matrix 6..=132 x 6..=132, symbolic (i, j) inside it: utah / corner1-4 / idx vs the standard's module()", encodes=PL[1:])
 for n, tier in (("sq10", T), ("sq12", T), ("r8x18", T)):
     reg("pl_rw_" + n, "place", ["C07", "C01"], cap=3600, mem_gb=24, tier=tier, role="attempt", bounds="%s: all codewords of the symbol symbolic: module == bit of the codeword at the standard's position; codewords() inverts" % n,
         encodes=["placement::MatrixMap::new_with_codewords", "copy_from_codewords", "traverse_mut", "bits_mut", "write_padding", "codewords", "traverse"] + PL)
 for n, tier in (("sq10", Q), ("r8x18", Q), ("r8x32", T), ("r12x36", T), ("r8x64", T), ("sq32", T)):
-    reg("fd_render_" + n, "place", ["C08", "C01"], cap=2400, mem_gb=16, tier=tier, role="attempt" if n == "sq32" else "lemma",
+    reg("fd_render_" + n, "place", ["C08", "C01"], cap=2400, mem_gb=8 if tier == Q else 16, tier=tier, role="attempt" if n == "sq32" else "lemma",
+        qprops=["C08", "C01"] if n == "sq10" else ["C08"],
         bounds="%s: every mapping-matrix entry symbolic: each module of bitmap() is the standard's finder/clock/alignment value or the entry at the region-offset position" % n, encodes=["placement::MatrixMap::bitmap", "placement::MatrixMap::new"])
 TFB = ["placement::MatrixMap::try_from_bits", "placement::MatrixMap::bitmap"]
 for n in ("sq10", "sq12", "r8x18", "r8x32"):
